@@ -43,12 +43,17 @@ def rp_name(n):
     return 'rp%d' % n
 
 
+# project 3 and user 3 carry the SAME external id (keystone ids of projects and users live in different namespaces and may
+# coincide - as the placeholder ids of [placement]incomplete_consumer_* do by default): the two tables must not be confused
+SHARED_ID = 'shared-id-3'
+
+
 def proj_name(n):
-    return INCOMPLETE if n == 0 else 'proj%d' % n
+    return INCOMPLETE if n == 0 else SHARED_ID if n == 3 else 'proj%d' % n
 
 
 def user_name(n):
-    return INCOMPLETE if n == 0 else 'user%d' % n
+    return INCOMPLETE if n == 0 else SHARED_ID if n == 3 else 'user%d' % n
 
 
 def ctype_name(n):
@@ -64,6 +69,8 @@ def tok_of_name(s, prefix):
     """token-style names map back to their token; any other name to a stable hash (>= 10^7)"""
     if s == INCOMPLETE:
         return 0
+    if s == SHARED_ID:
+        return 3
     if s is not None and s.startswith(prefix) and s[len(prefix):].isdigit():
         return int(s[len(prefix):])
     return _hash_tok(s or '')
